@@ -110,7 +110,7 @@ theorem ibuf_same {f : St → St} (h : ∀ s, (f s).ibuf = s.ibuf) : Rel KeepsIb
 
 theorem ibufWF_stepRel (m : Msg) : StepRel KeepsIbufWF m where
   pre := keepsIbufWF_preO
-  write := fun line => Rel.transportWrite (fun _ h => h) line
+  write := fun _ _ => Rel.transportWrite (fun _ h => h) _
   setNode := fun _ => ibuf_same fun _ => rfl
   alloc := ibuf_same fun _ => rfl
   erase := fun _ _ _ => ibuf_same fun s => by split <;> rfl
@@ -127,7 +127,7 @@ theorem ibufWF_recv (env : Env) (line : Str) (w : W) (h : IbufWF w.st) : IbufWF 
     (ParkOK.of_all fun _ => ibuf_same fun _ => rfl) env).step w h
 
 theorem ibufWF_send (obj : Option Msg) (b : Bool) (w : W) (h : IbufWF w.st) : IbufWF (apiSend obj b w).2.st :=
-  (rel_apiSend (ibufWF_stepRel default) (fun _ _ => ibuf_same fun _ => rfl) obj b).step w h
+  (rel_apiSend keepsIbufWF_preO (fun _ => Rel.transportWrite (fun _ h => h) _) (fun _ _ => ibuf_same fun _ => rfl) obj b).step w h
 
 theorem ibufWF_init : IbufWF {} := by simp [IbufWF, PDict.WF, PDict.keys]
 
@@ -165,7 +165,7 @@ theorem key_ne_of_node_ne {n n' : Int} (c t : Int) (h : n' ≠ n) : (presentatio
 
 theorem othersSame_stepRel (m : Msg) : StepRel (OthersSame m.node) m where
   pre := othersSame_preO m.node
-  write := fun line => Rel.transportWrite (fun _ _ _ => Iff.rfl) line
+  write := fun _ _ => Rel.transportWrite (fun _ _ _ => Iff.rfl) _
   setNode := fun _ => others_ibuf_same _ fun _ => rfl
   alloc := others_ibuf_same _ fun _ => rfl
   erase := fun _ _ _ => others_ibuf_same _ fun s => by split <;> rfl
